@@ -668,6 +668,24 @@ func (x *Exec) autoInvariants(fr *Frame, li *loopInfo, override map[*ssa.Phi]*Va
 			}
 			out = append(out, App(SBool, "bvsge", x.term(v), bv64(^uint64(0))))
 			out = append(out, App(SBool, "bvslt", x.term(v), bv64(maxLen)))
+			// idx < len: the head computes idx+1 and compares it with the length
+			for _, i2 := range li.head.Instrs {
+				add, ok := i2.(*ssa.BinOp)
+				if !ok || add.Op != token.ADD || add.X != ssa.Value(phi) {
+					continue
+				}
+				for _, i3 := range li.head.Instrs {
+					cmp, ok := i3.(*ssa.BinOp)
+					if !ok || cmp.Op != token.LSS || cmp.X != ssa.Value(add) {
+						continue
+					}
+					if lv, ok := fr.env[cmp.Y]; ok {
+						out = append(out, App(SBool, "bvslt", x.term(v), x.term(lv)))
+					} else if c, ok := cmp.Y.(*ssa.Const); ok {
+						out = append(out, App(SBool, "bvslt", x.term(v), x.constVal(c).T))
+					}
+				}
+			}
 		}
 	}
 	return out
